@@ -2,8 +2,9 @@
 //!
 //! Three parties per case, same inputs:
 //!   * implementation: the real `Totp::verify` / `Totp::do_totp_duration_from_epoch`
-//!     (`kanidmd_lib::credential::totp`, public API; tokens built by `Totp::new` or through
-//!     `TryFrom<ProtoTotp>`), panics caught (`p`);
+//!     (`kanidmd_lib::credential::totp`, public API; tokens built by `Totp::new`, through
+//!     `TryFrom<ProtoTotp>` or through `TryFrom<DbTotpV1>` (hook `verif_hooks::c29`)), panics
+//!     caught (`p`); the raw HMAC of `TotpAlgo::digest` (hook) for both counters;
 //!   * model: `km_c29` (`verifyMany` / `doTotp` / `ofProto` of KanidmModel/Totp.lean), compared
 //!     reply for reply (`impl-vs-model`);
 //!   * oracle: RFC 6238 written in this file from the RFCs only (own SHA-1/SHA-256/SHA-512
@@ -21,6 +22,7 @@
 use hlib::*;
 use kanidm_proto::internal::{TotpAlgo as ProtoAlgo, TotpSecret};
 use kanidmd_lib::credential::totp::{Totp, TotpAlgo, TotpDigits};
+use kanidmd_lib::verif_hooks::c29 as hook;
 use serde_json::{json, Value};
 use std::io::{BufRead, BufReader, Write};
 use std::process::{Child, ChildStdin, ChildStdout, Command, Stdio};
@@ -384,8 +386,8 @@ fn unhex(s: &str) -> Vec<u8> {
 struct Case {
     stream: &'static str,
     algo: u32,    // 1 | 256 | 512
-    digits: u8,   // 6 | 8 (other values only with route "proto")
-    route: &'static str, // "new" | "proto"
+    digits: u8,   // 6 | 8 (other values only with routes "proto"/"db"; 0 with "db" = field absent)
+    route: &'static str, // "new" | "proto" | "db"
     step: u64,
     secs: u64,
     nanos: u32,
@@ -410,12 +412,24 @@ impl Case {
             stream,
             algo: v["algo"].as_u64().unwrap() as u32,
             digits: v["digits"].as_u64().unwrap() as u8,
-            route: if v["route"].as_str() == Some("proto") { "proto" } else { "new" },
+            route: match v["route"].as_str() {
+                Some("proto") => "proto",
+                Some("db") => "db",
+                _ => "new",
+            },
             step: v["step"].as_u64().unwrap(),
             secs: v["secs"].as_u64().unwrap(),
             nanos: v["nanos"].as_u64().unwrap_or(0) as u32,
             key: unhex(v["key"].as_str().unwrap()),
             chals: v["chals"].as_array().unwrap().iter().map(|x| x.as_u64().unwrap() as u32).collect(),
+        }
+    }
+    /// The digit count the token ends up with (`db` route, field absent: six).
+    fn eff_digits(&self) -> u8 {
+        if self.route == "db" && self.digits == 0 {
+            6
+        } else {
+            self.digits
         }
     }
     fn in_domain(&self) -> bool {
@@ -427,10 +441,15 @@ impl Case {
         } else {
             self.chals.iter().map(|c| c.to_string()).collect::<Vec<_>>().join(",")
         };
-        let op = if self.route == "proto" { "pverify" } else { "verify" };
-        let v = format!("{op} {} {} {} {} {} {chals}", self.algo, self.digits, self.step, self.secs, hexkey(&self.key));
-        let c = if self.digits == 6 || self.digits == 8 {
-            Some(format!("code {} {} {} {} {}", self.algo, self.digits, self.step, self.secs, hexkey(&self.key)))
+        let op = match self.route {
+            "proto" => "pverify",
+            "db" => "dverify",
+            _ => "verify",
+        };
+        let digits = if self.route == "db" && self.digits == 0 { "none".to_string() } else { self.digits.to_string() };
+        let v = format!("{op} {} {digits} {} {} {} {chals}", self.algo, self.step, self.secs, hexkey(&self.key));
+        let c = if self.eff_digits() == 6 || self.eff_digits() == 8 {
+            Some(format!("code {} {} {} {} {}", self.algo, self.eff_digits(), self.step, self.secs, hexkey(&self.key)))
         } else {
             None
         };
@@ -469,6 +488,8 @@ fn build(c: &Case) -> Option<Totp> {
             digits: c.digits,
         })
         .ok()
+    } else if c.route == "db" {
+        hook::from_db(c.key.clone(), c.step, c.algo, if c.digits == 0 { None } else { Some(c.digits) }).ok()
     } else {
         let d = if c.digits == 6 { TotpDigits::Six } else { TotpDigits::Eight };
         Some(Totp::new(c.key.clone(), c.step, real_algo(c.algo), d))
@@ -476,6 +497,10 @@ fn build(c: &Case) -> Option<Totp> {
 }
 
 struct Ctx {
+    /// `--simulate future|d7|mask`: replace the implementation's verdicts by those of a simulated
+    /// defective implementation (built from the oracle's parts) to exercise the oracle channel
+    /// and its class recognisers without touching /repo. Never set by `./check`.
+    simulate: Option<String>,
     drv: Driver,
     py: Option<Py>,
     rep: Report,
@@ -490,7 +515,7 @@ fn which_code(c: &Case, chal: u32) -> Option<i64> {
         if cc < 0 || cc > u64::MAX as i128 {
             continue;
         }
-        if rfc::hotp(c.algo, &c.key, cc as u64, c.digits as u32) == chal {
+        if rfc::hotp(c.algo, &c.key, cc as u64, c.eff_digits() as u32) == chal {
             return Some(k);
         }
     }
@@ -515,7 +540,7 @@ fn classify(c: &Case, chal: u32, observed: char) -> String {
 impl Ctx {
     fn push(&mut self, c: Case) {
         self.pending.push(c);
-        if self.pending.len() >= 20 {
+        if self.pending.len() >= 12 {
             self.flush();
         }
     }
@@ -532,21 +557,39 @@ impl Ctx {
                 lines.push(l);
                 lines.len() - 1
             });
-            let ri = if c.in_domain() && (c.digits == 6 || c.digits == 8) {
-                lines.push(format!("rfc {} {} {} {} {}", c.algo, c.digits, c.step, c.secs, hexkey(&c.key)));
+            let ri = if c.in_domain() && (c.eff_digits() == 6 || c.eff_digits() == 8) {
+                lines.push(format!("rfc {} {} {} {} {}", c.algo, c.eff_digits(), c.step, c.secs, hexkey(&c.key)));
                 Some(lines.len() - 1)
             } else {
                 None
             };
-            idx.push((vi, ci, ri));
+            // raw HMAC for the current and the previous counter
+            let hi = if c.in_domain() {
+                let counter = c.secs / c.step;
+                lines.push(format!("hmac {} {} {}", c.algo, hexkey(&c.key), counter));
+                lines.push(format!("hmac {} {} {}", c.algo, hexkey(&c.key), counter - 1));
+                Some(lines.len() - 2)
+            } else {
+                None
+            };
+            idx.push((vi, ci, ri, hi));
         }
         let replies = self.drv.ask_batch(&lines);
-        for (c, (vi, ci, ri)) in cases.iter().zip(idx) {
-            self.one(c, &lines[vi], &replies[vi], ci.map(|i| replies[i].as_str()), ri.map(|i| replies[i].as_str()));
+        for (c, (vi, ci, ri, hi)) in cases.iter().zip(idx) {
+            let hm = hi.map(|i| [replies[i].as_str(), replies[i + 1].as_str()]);
+            self.one(c, &lines[vi], &replies[vi], ci.map(|i| replies[i].as_str()), ri.map(|i| replies[i].as_str()), hm);
         }
     }
 
-    fn one(&mut self, c: &Case, line: &str, model_verify: &str, model_code: Option<&str>, model_rfc: Option<&str>) {
+    fn one(
+        &mut self,
+        c: &Case,
+        line: &str,
+        model_verify: &str,
+        model_code: Option<&str>,
+        model_rfc: Option<&str>,
+        model_hmac: Option<[&str; 2]>,
+    ) {
         let rep = &mut self.rep;
         let input = c.to_json();
         rep.count(&format!("stream:{}", c.stream));
@@ -574,6 +617,33 @@ impl Ctx {
                     None => 'p',
                 })
                 .collect(),
+        };
+        let got: String = match (&self.simulate, c.in_domain() && tok.is_some()) {
+            (Some(kind), true) => {
+                let counter = c.secs / c.step;
+                let nd = c.eff_digits() as u32;
+                c.chals
+                    .iter()
+                    .map(|ch| {
+                        let code = |cc: u64| rfc::hotp(c.algo, &c.key, cc, nd);
+                        let ok = match kind.as_str() {
+                            "future" => *ch == code(counter) || *ch == code(counter.wrapping_add(1)),
+                            "d7" => c.key.len() <= rfc::block(c.algo) && (*ch == code(counter) || *ch == code(counter - 1)),
+                            _ => {
+                                // offset mask 0x7 instead of 0xf
+                                let trunc = |cc: u64| {
+                                    let hs = rfc::hmac(c.algo, &c.key, &cc.to_be_bytes());
+                                    let o = (hs[hs.len() - 1] & 0x7) as usize;
+                                    (u32::from_be_bytes([hs[o], hs[o + 1], hs[o + 2], hs[o + 3]]) & 0x7fff_ffff) % 10u32.pow(nd)
+                                };
+                                *ch == trunc(counter) || *ch == trunc(counter - 1)
+                            }
+                        };
+                        if ok { 'a' } else { 'r' }
+                    })
+                    .collect()
+            }
+            _ => got,
         };
         // ---- correspondence: verify
         if got != model_verify {
@@ -611,7 +681,17 @@ impl Ctx {
                 (&p.algo, c.algo),
                 (ProtoAlgo::Sha1, 1) | (ProtoAlgo::Sha256, 256) | (ProtoAlgo::Sha512, 512)
             );
-            if p.secret != c.key || p.step != c.step || p.digits != c.digits || !same_algo {
+            let (dk, ds, da, dd) = hook::to_db(t);
+            if dk != c.key || ds != c.step || da != c.algo || dd != Some(c.eff_digits()) {
+                rep.fail(Failure {
+                    kind: "impl-vs-oracle".into(),
+                    class: "token-fields-changed".into(),
+                    input: input.clone(),
+                    expected: "to_dbtotpv1 returns the secret, step, algorithm and digits the token was built from".into(),
+                    observed: format!("step {ds} digits {dd:?} algo {da} secret {}", hexkey(&dk)),
+                });
+            }
+            if p.secret != c.key || p.step != c.step || p.digits != c.eff_digits() || !same_algo {
                 rep.fail(Failure {
                     kind: "impl-vs-oracle".into(),
                     class: "token-fields-changed".into(),
@@ -622,7 +702,7 @@ impl Ctx {
             }
         }
         // ---- oracle
-        let valid_digits = c.digits == 6 || c.digits == 8;
+        let valid_digits = c.eff_digits() == 6 || c.eff_digits() == 8;
         if !valid_digits {
             rep.case(Some(line.to_string()));
             if tok.is_some() {
@@ -631,7 +711,7 @@ impl Ctx {
                     class: "digits-not-6-or-8-accepted".into(),
                     input,
                     expected: "a token with a digit count other than 6 or 8 is refused".into(),
-                    observed: "TryFrom<ProtoTotp> returned Ok".into(),
+                    observed: format!("the {} conversion returned Ok", c.route),
                 });
             }
             return;
@@ -645,12 +725,43 @@ impl Ctx {
             return;
         }
         let counter = c.secs / c.step;
-        let cur = rfc::hotp(c.algo, &c.key, counter, c.digits as u32);
-        let prev = rfc::hotp(c.algo, &c.key, counter - 1, c.digits as u32);
+        let nd = c.eff_digits() as u32;
+        let cur = rfc::hotp(c.algo, &c.key, counter, nd);
+        let prev = rfc::hotp(c.algo, &c.key, counter - 1, nd);
+        // raw HMAC: implementation (hook) vs model vs oracle
+        if let Some(mh) = model_hmac {
+            for (k, cc) in [counter, counter - 1].into_iter().enumerate() {
+                let ih = match quiet(|| hook::algo_digest(real_algo(c.algo), &c.key, cc)) {
+                    None => "panic".to_string(),
+                    Some(Ok(h)) => hexkey(&h),
+                    Some(Err(e)) => format!("err {e}"),
+                };
+                if ih != mh[k] {
+                    rep.fail(Failure {
+                        kind: "impl-vs-model".into(),
+                        class: "hmac-differs".into(),
+                        input: input.clone(),
+                        expected: format!("model hmac(counter {cc}): {}", mh[k]),
+                        observed: format!("impl: {ih}"),
+                    });
+                }
+                let oh = hexkey(&rfc::hmac(c.algo, &c.key, &cc.to_be_bytes()));
+                if ih != oh {
+                    rep.fail(Failure {
+                        kind: "impl-vs-oracle".into(),
+                        class: if c.key.len() > b { "D7:long-secret-rejected".into() } else { "hmac-not-rfc2104".into() },
+                        input: input.clone(),
+                        expected: format!("HMAC-SHA{}(secret, counter {cc} as 8 big-endian bytes) = {oh}", c.algo),
+                        observed: ih,
+                    });
+                }
+                rep.count("hmac-compared");
+            }
+        }
         // second opinion on the oracle
         if let Some(py) = &mut self.py {
-            let a = py.hotp(c.algo, &c.key, counter, c.digits as u32);
-            let b = py.hotp(c.algo, &c.key, counter - 1, c.digits as u32);
+            let a = py.hotp(c.algo, &c.key, counter, nd);
+            let b = py.hotp(c.algo, &c.key, counter - 1, nd);
             match (a, b) {
                 (Some(a), Some(b)) => {
                     rep.count("oracle-crosscheck:python");
@@ -788,7 +899,9 @@ fn gen_case(seed: u64, i: u64) -> Case {
     let algo = *r.pick(&[1u32, 1, 256, 256, 512]);
     let digits = *r.pick(&[6u8, 8]);
     let key = gen_key(&mut r, algo);
-    let route = if r.chance(1, 3) { "proto" } else { "new" };
+    let route = *r.pick(&["new", "new", "proto", "db"]);
+    // a stored token may lack the digits field (then six)
+    let digits = if route == "db" && digits == 6 && r.chance(1, 2) { 0 } else { digits };
     let edge = r.chance(1, 12);
     let step = if edge && r.chance(1, 3) {
         0
@@ -829,7 +942,7 @@ fn gen_case(seed: u64, i: u64) -> Case {
         base + within
     };
     let nanos = if r.chance(1, 2) { 0 } else { r.below(1_000_000_000) as u32 };
-    let chals = candidates(&mut r, algo, &key, step, secs, digits);
+    let chals = candidates(&mut r, algo, &key, step, secs, if digits == 0 { 6 } else { digits });
     Case { stream: if edge { "edge" } else { "rand" }, algo, digits, route, step, secs, nanos, key, chals }
 }
 
@@ -837,7 +950,7 @@ fn corpus() -> Vec<Case> {
     let mut v = vec![];
     let mut r = Rng::new(29);
     let mut add = |algo: u32, digits: u8, key: Vec<u8>, step: u64, secs: u64| {
-        for route in ["new", "proto"] {
+        for route in ["new", "proto", "db"] {
             let chals = candidates(&mut r, algo, &key, step, secs, digits);
             v.push(Case { stream: "corpus", algo, digits, route, step, secs, nanos: 0, key: key.clone(), chals });
         }
@@ -878,6 +991,7 @@ fn main() {
     rfc::self_test();
     std::panic::set_hook(Box::new(|_| {}));
     let mut ctx = Ctx {
+        simulate: args.extra.get("simulate").cloned(),
         drv: Driver::spawn(&args.driver),
         py: Py::spawn(),
         rep: Report::new(
@@ -910,6 +1024,19 @@ fn main() {
     for (i, d) in [0u8, 1, 5, 7, 9, 10, 255].iter().enumerate() {
         let mut r = Rng::for_case(args.seed, 1_000_000 + i as u64);
         let algo = *r.pick(&[1u32, 256, 512]);
+        if *d != 0 {
+            ctx.push(Case {
+                stream: "badproto",
+                algo,
+                digits: *d,
+                route: "db",
+                step: 30,
+                secs: 59,
+                nanos: 0,
+                key: r.bytes(20),
+                chals: vec![0, 1],
+            });
+        }
         ctx.push(Case {
             stream: "badproto",
             algo,
